@@ -327,6 +327,21 @@ func init() {
 		return func(fr *frame, args []Value) Value {
 			e := fr.e
 			path := args[0].(Str)
+			if e.fsStatFromWalk {
+				// consistent with the registered walk entries: the path exists iff
+				// it is one of them (or a root given to rt.FsDir)
+				for _, we := range e.walkList {
+					if len(we.path.b) == len(path.b) && e.branch(e.strEq(we.path, path)) {
+						e.fsRecord(op, path, Str{}, true)
+						t := e.namedType(rtPkgPath, "FileInfo")
+						mode := e.tt.Ite(we.dir, e.tt.BV(32, 0o755|1<<31), e.tt.BV(32, 0o644))
+						var cell Value = Struct{path, we.dir, mode}
+						return Tuple{Iface{t: types.NewPointer(t), v: &cell}, Iface{}}
+					}
+				}
+				e.fsRecord(op, path, Str{}, false)
+				return Tuple{Iface{}, e.sentinel("internal/oserror", "ErrNotExist")}
+			}
 			ok, err := e.fsFork3(op, "ErrNotExist")
 			e.fsRecord(op, path, Str{}, ok)
 			if !ok {
@@ -390,6 +405,10 @@ func init() {
 	reg(rt+"NativeAtomicDest", func(fr *frame, args []Value) Value { return nil })
 	reg(rt+"NativeEnd", func(fr *frame, args []Value) Value { return nil })
 	reg(rt+"NativeSubRoot", func(fr *frame, args []Value) Value { return nil })
+	reg(rt+"FsStatFromWalk", func(fr *frame, args []Value) Value {
+		fr.e.fsStatFromWalk = fr.e.branch(args[0].(*Term))
+		return nil
+	})
 	reg(rt+"FsStatDirs", func(fr *frame, args []Value) Value {
 		fr.e.fsStatDirs = fr.e.branch(args[0].(*Term))
 		return nil
